@@ -192,6 +192,7 @@ class Sim(object):
         self.worker_conn = None
         self.worker_ch = None
         self.steps = 0
+        self.crashes = []              # (step number, instance) of simulated process deaths
         self.trace = []                # executed steps
         self.errors = []               # exceptions escaping a step (engine bugs surfacing as crashes)
         self.broker.observers.append(self._observe)
@@ -351,6 +352,11 @@ class Sim(object):
                 self.instances[step[1]].start()
         except KeyError:
             raise
+        except self.pika.broker.SimCrash as e:
+            for inst in self.instances:
+                if inst.alive and inst.conn is e.conn:
+                    inst.crash()
+                    self.crashes.append((self.steps, inst.ident))
         except SystemExit as e:
             self.errors.append(("SystemExit", step, str(e)))
         except Exception as e:     # an exception escaping into the IO loop: record, keep going
